@@ -5,7 +5,7 @@ The Gumbel / GumbelMin likelihood equations over ℝ, restated with `List.sum`, 
 `x ↦ a·x + b` and `x ↦ -x`.
 -/
 namespace Qats.Est
-open Qats Qats.Dist Qats.SN
+open Qats Qats.Dist
 
 theorem zipWith_mul_map (z : List ℝ) (f : ℝ → ℝ) :
     List.zipWith (· * ·) z (z.map f) = z.map fun x => x * f x := by
